@@ -62,6 +62,9 @@ pub enum KeyRef {
     Huge,
     /// exactly the recoverable maximum of the format
     AtRecoverable,
+    /// keys around the 16-bit length boundary and up to MAX_KEY_SIZE (valid in memory-only mode):
+    /// 0 => 65535, 1 => 65536, 2 => 65537, 3 => 70000, _ => MAX_KEY_SIZE
+    Wide(u8),
 }
 
 #[derive(Clone, Copy, Debug, Serialize, Deserialize, PartialEq, Eq)]
@@ -385,6 +388,7 @@ fn keyref(b: &Bias) -> BoxedStrategy<KeyRef> {
         b.invalid => Just(KeyRef::OverRecoverable),
         b.invalid / 2 => Just(KeyRef::Huge),
         1 => Just(KeyRef::AtRecoverable),
+        if b.long_keys { 1 } else { 0 } => (0u8..5).prop_map(KeyRef::Wide),
     ]
     .boxed()
 }
@@ -726,6 +730,36 @@ pub fn long_range_strategy() -> BoxedStrategy<Case> {
                 ops.push(Op::Flush);
             }
             ops.extend(tail);
+            Case { cfg, keys, t0_offset, ops }
+        })
+        .boxed()
+}
+
+/// Crash engine: one flush retires more extents than one allocation-journal transaction holds:
+/// 2000-2400 two- or three-block records interleaved with live one-block records (so most
+/// retired extents do not coalesce) written through four shards, all acknowledged, then deleted (or overwritten by a small
+/// value) and flushed again.
+pub fn mass_delete_strategy() -> BoxedStrategy<Case> {
+    ((any::<bool>(), proptest::bool::weighted(0.3)), 2000usize..2400, 2u8..4, any::<bool>(), 0u64..1_000_000_000_000u64)
+        .prop_map(|((plain_io, ttl), pairs, blocks, overwrite, t0_offset)| {
+            let data_blocks = pairs * (blocks as usize + 1) + if overwrite { pairs } else { 0 } + 64;
+            let cfg = Config { persistent: true, version: 3, cache: false, ttl, dev: DevSize::Tiny(data_blocks as u16), max_memory: None, plain_io, legacy_plain_meta: false, visible_cpus: 8 };
+            let n = pairs * 2;
+            let keys: Vec<Vec<u8>> = (0..n).map(|i| format!("m{i:04}").into_bytes()).collect();
+            let mut ops = Vec::new();
+            for i in 0..pairs {
+                ops.push(Op::Insert { k: key_at(2 * i, n), v: ValSpec { len: LenClass::Multi(blocks, 77), kind: ValKind::Stamp }, ts: TsSpec::Auto, bytes: false });
+                ops.push(Op::Insert { k: key_at(2 * i + 1, n), v: ValSpec { len: LenClass::Small(20), kind: ValKind::Stamp }, ts: TsSpec::Auto, bytes: false });
+            }
+            ops.push(Op::Flush);
+            for i in 0..pairs {
+                if overwrite {
+                    ops.push(Op::Insert { k: key_at(2 * i, n), v: ValSpec { len: LenClass::Small(30), kind: ValKind::Stamp }, ts: TsSpec::Auto, bytes: false });
+                } else {
+                    ops.push(Op::Delete { k: key_at(2 * i, n), ts: TsSpec::Auto });
+                }
+            }
+            ops.push(Op::Flush);
             Case { cfg, keys, t0_offset, ops }
         })
         .boxed()
